@@ -41,6 +41,7 @@ theorem pick_spec {t : Nat} {rs a b : List Run} {r : Run} (h : pick t rs = some 
 theorem run_induction (c : Cfg) (P : State → Prop) (h0 : P {})
     (hsettle : ∀ s, P s → P (settle c s))
     (hfire : ∀ s t, P s → P (fire c s t))
+    (hexpire : ∀ s d, P s → P (expire c s d))
     (hnow : ∀ s t, P s → P { s with now := max s.now t })
     (haccept : ∀ s x, P s → s.stopped = false → P (accept s x))
     (hstop : ∀ s, P s → P (doStop c s)) :
@@ -54,8 +55,12 @@ theorem run_induction (c : Cfg) (P : State → Prop) (h0 : P {})
       simp only [advance]
       split
       · split
-        · exact ih _ (hfire _ _ h)
-        · exact h
+        · split
+          · exact ih _ (hexpire _ _ h)
+          · exact h
+        · split
+          · exact ih _ (hfire _ _ h)
+          · exact h
       · exact h
   have hadvTo : ∀ bound s, P s → P (advanceTo c bound s) := by
     intro bound s h
@@ -96,6 +101,7 @@ theorem run_induction (c : Cfg) (P : State → Prop) (h0 : P {})
 @[simp] theorem emit_stopped (s : State) (e : Ev) : (emit s e).stopped = s.stopped := rfl
 @[simp] theorem emit_sdPending (s : State) (e : Ev) : (emit s e).sdPending = s.sdPending := rfl
 @[simp] theorem emit_nacc (s : State) (e : Ev) : (emit s e).nacc = s.nacc := rfl
+@[simp] theorem emit_deadline (s : State) (e : Ev) : (emit s e).deadline = s.deadline := rfl
 @[simp] theorem emit_log (s : State) (e : Ev) : (emit s e).log = (s.now, e) :: s.log := rfl
 
 @[simp] theorem discards_runs (s : State) (j : Job) (q : List Job) : (discards s j q).runs = s.runs := by
@@ -113,6 +119,9 @@ theorem run_induction (c : Cfg) (P : State → Prop) (h0 : P {})
   induction q generalizing s j <;> simp_all [discards]
 @[simp] theorem discards_nacc (s : State) (j : Job) (q : List Job) : (discards s j q).nacc = s.nacc := by
   induction q generalizing s j <;> simp_all [discards]
+@[simp] theorem discards_deadline (s : State) (j : Job) (q : List Job) :
+    (discards s j q).deadline = s.deadline := by
+  induction q generalizing s j <;> simp_all [discards]
 
 @[simp] theorem startRun_runs (s : State) (j : Job) :
     (startRun s j).runs = s.runs ++ [⟨j, true, s.now + j.data.dur⟩] := rfl
@@ -122,6 +131,7 @@ theorem run_induction (c : Cfg) (P : State → Prop) (h0 : P {})
 @[simp] theorem startRun_stopped (s : State) (j : Job) : (startRun s j).stopped = s.stopped := rfl
 @[simp] theorem startRun_sdPending (s : State) (j : Job) : (startRun s j).sdPending = s.sdPending := rfl
 @[simp] theorem startRun_nacc (s : State) (j : Job) : (startRun s j).nacc = s.nacc := rfl
+@[simp] theorem startRun_deadline (s : State) (j : Job) : (startRun s j).deadline = s.deadline := rfl
 @[simp] theorem startRun_log (s : State) (j : Job) :
     (startRun s j).log = (s.now, .start j) :: (s.now, .out (s.output + 1)) :: s.log := rfl
 
@@ -132,6 +142,7 @@ theorem run_induction (c : Cfg) (P : State → Prop) (h0 : P {})
 @[simp] theorem countDown_stopped (s : State) : (countDown s).stopped = s.stopped := rfl
 @[simp] theorem countDown_sdPending (s : State) : (countDown s).sdPending = s.sdPending := rfl
 @[simp] theorem countDown_nacc (s : State) : (countDown s).nacc = s.nacc := rfl
+@[simp] theorem countDown_deadline (s : State) : (countDown s).deadline = s.deadline := rfl
 @[simp] theorem countDown_log (s : State) : (countDown s).log = (s.now, .out (s.output - 1)) :: s.log := rfl
 
 @[simp] theorem startAll_queue (s : State) (q : List Job) : (startAll s q).queue = s.queue := by
@@ -144,6 +155,8 @@ theorem run_induction (c : Cfg) (P : State → Prop) (h0 : P {})
   induction q generalizing s <;> simp_all [startAll]
 @[simp] theorem startAll_nacc (s : State) (q : List Job) : (startAll s q).nacc = s.nacc := by
   induction q generalizing s <;> simp_all [startAll]
+@[simp] theorem startAll_deadline (s : State) (q : List Job) : (startAll s q).deadline = s.deadline := by
+  induction q generalizing s <;> simp_all [startAll]
 theorem startAll_runs (s : State) (q : List Job) :
     (startAll s q).runs = s.runs ++ q.map (fun j => ⟨j, true, s.now + j.data.dur⟩) := by
   induction q generalizing s <;> simp_all [startAll]
@@ -151,6 +164,100 @@ theorem startAll_output (s : State) (q : List Job) : (startAll s q).output = s.o
   induction q generalizing s with
   | nil => simp [startAll]
   | cons j q ih => simp [startAll, ih]; omega
+
+/-! ### stop_timeout expiry -/
+
+@[simp] theorem expire_queue (c : Cfg) (s : State) (d : Nat) : (expire c s d).queue = s.queue := rfl
+@[simp] theorem expire_output (c : Cfg) (s : State) (d : Nat) : (expire c s d).output = s.output := rfl
+@[simp] theorem expire_stopped (c : Cfg) (s : State) (d : Nat) : (expire c s d).stopped = s.stopped := rfl
+@[simp] theorem expire_sdPending (c : Cfg) (s : State) (d : Nat) : (expire c s d).sdPending = s.sdPending := rfl
+@[simp] theorem expire_nacc (c : Cfg) (s : State) (d : Nat) : (expire c s d).nacc = s.nacc := rfl
+@[simp] theorem expire_now (c : Cfg) (s : State) (d : Nat) : (expire c s d).now = max s.now d := rfl
+@[simp] theorem expire_deadline (c : Cfg) (s : State) (d : Nat) : (expire c s d).deadline = none := rfl
+@[simp] theorem expire_runs (c : Cfg) (s : State) (d : Nat) :
+    (expire c s d).runs = s.runs.map (toGuard c (max s.now d)) := rfl
+theorem expire_log (c : Cfg) (s : State) (d : Nat) :
+    (expire c s d).log = expireEvents (max s.now d) s.runs ((max s.now d, Ev.timeout) :: s.log) := rfl
+
+@[simp] theorem toGuard_coro (c : Cfg) (now : Nat) (r : Run) : (toGuard c now r).coro = false := by
+  unfold toGuard; split <;> simp_all
+@[simp] theorem toGuard_job (c : Cfg) (now : Nat) (r : Run) : (toGuard c now r).job = r.job := by
+  unfold toGuard; split <;> rfl
+theorem toGuard_of_guard (c : Cfg) (now : Nat) (r : Run) (h : r.coro = false) : toGuard c now r = r := by
+  unfold toGuard; simp [h]
+
+theorem expireEvents_append (now : Nat) (rs : List Run) (l : List (Nat × Ev)) :
+    expireEvents now rs l = expireEvents now rs [] ++ l := by
+  induction rs generalizing l with
+  | nil => rfl
+  | cons r rs ih =>
+    simp only [expireEvents]
+    rw [ih, ih (if r.coro = true then _ else [])]
+    split <;> simp
+
+theorem expireEvents_mem {now : Nat} {rs : List Run} {x : Nat × Ev} :
+    x ∈ expireEvents now rs [] ↔
+      ∃ r ∈ rs, r.coro = true ∧ (x = (now, Ev.cancelled r.job) ∨ x = (now, Ev.canc r.job)) := by
+  induction rs with
+  | nil => simp [expireEvents]
+  | cons r rs ih =>
+    simp only [expireEvents]
+    rw [expireEvents_append, List.mem_append, ih]
+    by_cases hc : r.coro = true
+    · simp only [hc, if_true, List.mem_cons, List.not_mem_nil, or_false]
+      constructor
+      · rintro (⟨r', hr', h1, h2⟩ | h | h)
+        · exact ⟨r', Or.inr hr', h1, h2⟩
+        · exact ⟨r, Or.inl rfl, hc, Or.inr h⟩
+        · exact ⟨r, Or.inl rfl, hc, Or.inl h⟩
+      · rintro ⟨r', hr', h1, h2⟩
+        rcases hr' with rfl | hr'
+        · rcases h2 with h2 | h2
+          · exact Or.inr (Or.inr h2)
+          · exact Or.inr (Or.inl h2)
+        · exact Or.inl ⟨r', hr', h1, h2⟩
+    · simp only [hc]
+      constructor
+      · rintro (⟨r', hr', h1, h2⟩ | h)
+        · exact ⟨r', List.mem_cons_of_mem _ hr', h1, h2⟩
+        · simp at h
+      · rintro ⟨r', hr', h1, h2⟩
+        rcases List.mem_cons.mp hr' with rfl | hr'
+        · exact absurd h1 hc
+        · exact Or.inl ⟨r', hr', h1, h2⟩
+
+/-- the new part of the log after an expiry -/
+def expireNew (now : Nat) (rs : List Run) : List (Nat × Ev) := expireEvents now rs [] ++ [(now, Ev.timeout)]
+
+theorem expire_log_eq (c : Cfg) (s : State) (d : Nat) :
+    (expire c s d).log = expireNew (max s.now d) s.runs ++ s.log := by
+  rw [expire_log, expireEvents_append]; simp [expireNew]
+
+theorem expireNew_mem {now : Nat} {rs : List Run} {x : Nat × Ev} (h : x ∈ expireNew now rs) :
+    x = (now, Ev.timeout) ∨
+      ∃ r ∈ rs, r.coro = true ∧ (x = (now, Ev.cancelled r.job) ∨ x = (now, Ev.canc r.job)) := by
+  simp only [expireNew, List.mem_append, List.mem_singleton] at h
+  rcases h with h | h
+  · exact Or.inr (expireEvents_mem.mp h)
+  · exact Or.inl h
+
+theorem expire_log_sub (c : Cfg) (s : State) (d : Nat) : ∀ x ∈ s.log, x ∈ (expire c s d).log := by
+  intro x hx; rw [expire_log_eq]; exact List.mem_append_right _ hx
+
+theorem expire_timeout_mem (c : Cfg) (s : State) (d : Nat) :
+    (max s.now d, Ev.timeout) ∈ (expire c s d).log := by
+  rw [expire_log_eq]; apply List.mem_append_left; simp [expireNew]
+
+/-- projections of the log that ignore cancellations and the timeout marker are unchanged -/
+theorem filterMap_expireNew (f : Ev → Option Job) (hf1 : ∀ j, f (Ev.canc j) = none)
+    (hf2 : ∀ j, f (Ev.cancelled j) = none) (hf3 : f Ev.timeout = none) (now : Nat) (rs : List Run) :
+    (expireNew now rs).filterMap (fun e => f e.2) = [] := by
+  rw [List.filterMap_eq_nil_iff]
+  intro x hx
+  rcases expireNew_mem hx with rfl | ⟨r, _, _, rfl | rfl⟩
+  · exact hf3
+  · exact hf2 _
+  · exact hf1 _
 
 /-! ### case analysis of the controller step and of a firing timer -/
 
@@ -266,9 +373,12 @@ theorem doStop_countInv (c : Cfg) (s : State) (h : CountInv c s) : CountInv c (d
       · simpa [CountInv] using h
       · simpa [CountInv, accept] using h
 
+theorem expire_countInv (c : Cfg) (s : State) (d : Nat) (h : CountInv c s) : CountInv c (expire c s d) := by
+  simpa [CountInv] using h
+
 theorem run_countInv (c : Cfg) (ops : List Op) : CountInv c (run c ops) :=
   run_induction c (CountInv c) (by simp [CountInv]) (settle_countInv c) (fire_countInv c)
-    (fun _ _ h => h) (fun s x h _ => accept_countInv c s x h) (doStop_countInv c) ops
+    (expire_countInv c) (fun _ _ h => h) (fun s x h _ => accept_countInv c s x h) (doStop_countInv c) ops
 
 
 /-! ### termination: every internal step lowers `measure`; `finish` reaches the idle state -/
@@ -276,8 +386,10 @@ theorem run_countInv (c : Cfg) (ops : List Op) : CountInv c (run c ops) :=
 def runCost (r : Run) : Nat := if r.coro then 2 else 1
 def sdCost (o : Option Job) : Nat := if o.isSome then 2 else 0
 
+def dlCost (o : Option Nat) : Nat := if o.isSome then 1 else 0
+
 theorem measure_def (s : State) :
-    measure s = 2 * s.queue.length + (s.runs.map runCost).sum + sdCost s.sdPending := rfl
+    measure s = 2 * s.queue.length + (s.runs.map runCost).sum + sdCost s.sdPending + dlCost s.deadline := rfl
 
 theorem sum_map_const2 (q : List Job) : (q.map (fun j => runCost ⟨j, true, t + j.data.dur⟩)).sum = 2 * q.length := by
   induction q with
@@ -353,6 +465,29 @@ theorem measure_zero_runs (s : State) (h : measure s = 0) : s.runs = [] := by
     have : 1 ≤ runCost r := by unfold runCost; split <;> omega
     simp [measure_def, hr] at h; omega
 
+theorem toGuard_cost (c : Cfg) (now : Nat) (rs : List Run) :
+    ((rs.map (toGuard c now)).map runCost).sum ≤ (rs.map runCost).sum := by
+  induction rs with
+  | nil => simp
+  | cons r rs ih =>
+    have : runCost (toGuard c now r) ≤ runCost r := by
+      unfold toGuard runCost; split <;> simp_all
+    simp only [List.map_cons, List.sum_cons]; omega
+
+theorem expire_measure (c : Cfg) (s : State) (d : Nat) (h : s.deadline.isSome) :
+    measure (expire c s d) < measure s := by
+  have := toGuard_cost c (max s.now d) s.runs
+  have hd : dlCost s.deadline = 1 := by simp [dlCost, h]
+  have hn : dlCost (none : Option Nat) = 0 := rfl
+  simp only [measure_def, expire_queue, expire_runs, expire_sdPending, expire_deadline, hd, hn]
+  omega
+
+theorem deadlineFirst_some {s : State} {m d : Nat} (h : deadlineFirst s m = some d) : s.deadline.isSome := by
+  unfold deadlineFirst at h
+  split at h
+  · next hd => simp [hd]
+  · cases h
+
 /-- with enough fuel the unbounded `advance` stops only when no run is left -/
 theorem advance_none_runs (c : Cfg) (fuel : Nat) (s : State) (h : measure s ≤ fuel) :
     (advance c none fuel s).runs = [] := by
@@ -362,12 +497,17 @@ theorem advance_none_runs (c : Cfg) (fuel : Nat) (s : State) (h : measure s ≤ 
     simp only [advance]
     split
     · next m hm =>
-      simp only [due, if_true]
-      apply ih
-      have := fire_measure c s m (minTill_pick _ _ hm)
-      omega
+      split
+      · next d hd =>
+        simp only [due, if_true]
+        apply ih
+        have := expire_measure c s d (deadlineFirst_some hd)
+        omega
+      · simp only [due, if_true]
+        apply ih
+        have := fire_measure c s m (minTill_pick _ _ hm)
+        omega
     · next hm => exact minTill_none _ hm
-
 
 /-! ### after the controller has run nothing startable is left waiting -/
 
@@ -429,6 +569,18 @@ theorem fire_quiet (c : Cfg) (s : State) (t : Nat) (h : Quiet c s) : Quiet c (fi
   · intro a r b _ _ _ _; exact settle_quiet _ _
   · intro a r b _ _ _; exact settle_quiet _ _
 
+theorem expire_quiet (c : Cfg) (s : State) (d : Nat) (h : Quiet c s) : Quiet c (expire c s d) := by
+  obtain ⟨h1, h2, h3⟩ := h
+  refine ⟨fun hm hr => ?_, fun hm => ⟨fun hr => ?_, ?_⟩, fun hm => ⟨(h3 hm).1, fun hp hs hr => ?_⟩⟩
+  · exact h1 hm (by simpa using hr)
+  · exact (h2 hm).1 (by simpa using hr)
+  · intro r rest hr hc
+    have : r ∈ (expire c s d).runs := by rw [hr]; simp
+    simp only [expire_runs, List.mem_map] at this
+    obtain ⟨r0, _, rfl⟩ := this
+    simp at hc
+  · exact (h3 hm).2 hp hs (by simpa using hr)
+
 theorem advance_quiet (c : Cfg) (bound : Option (Nat × Bool)) (fuel : Nat) (s : State) (h : Quiet c s) :
     Quiet c (advance c bound fuel s) := by
   induction fuel generalizing s with
@@ -437,8 +589,12 @@ theorem advance_quiet (c : Cfg) (bound : Option (Nat × Bool)) (fuel : Nat) (s :
     simp only [advance]
     split
     · split
-      · exact ih _ (fire_quiet c s _ h)
-      · exact h
+      · split
+        · exact ih _ (expire_quiet c s _ h)
+        · exact h
+      · split
+        · exact ih _ (fire_quiet c s _ h)
+        · exact h
     · exact h
 
 /-! ### stop_data waits in `sdPending` only in start mode and only after `stop()` -/
@@ -479,9 +635,12 @@ theorem doStop_sdInv (c : Cfg) (s : State) (h : SdInv c s) : SdInv c (doStop c s
       · next hm => simp [SdInv, hm]
       · simp [SdInv, accept] at *; exact h.1
 
+theorem expire_sdInv (c : Cfg) (s : State) (d : Nat) (h : SdInv c s) : SdInv c (expire c s d) := by
+  simpa [SdInv] using h
+
 theorem run_sdInv (c : Cfg) (ops : List Op) : SdInv c (run c ops) :=
   run_induction c (SdInv c) (by simp [SdInv]) (settle_sdInv c) (fire_sdInv c)
-    (fun _ _ h => h) (fun s x h _ => by simpa [SdInv, accept] using h) (doStop_sdInv c) ops
+    (expire_sdInv c) (fun _ _ h => h) (fun s x h _ => by simpa [SdInv, accept] using h) (doStop_sdInv c) ops
 
 theorem run_snoc (c : Cfg) (ops : List Op) (op : Op) : run c (ops ++ [op]) = step c (run c ops) op := by
   simp [run, List.foldl_append]
@@ -646,10 +805,45 @@ theorem doStop_balanced (c : Cfg) (s : State) (h : Balanced s) (hsd : SdInv c s)
       simpa [Balanced, pendJobs] using this
 
 
+theorem resJobs_expireEvents (now : Nat) (rs : List Run) (l : List (Nat × Ev)) (x : Job) :
+    (resJobs (expireEvents now rs l)).count x
+      = (resJobs l).count x + ((rs.filter (·.coro)).map (·.job)).count x := by
+  induction rs generalizing l with
+  | nil => simp [expireEvents]
+  | cons r rs ih =>
+    simp only [expireEvents]
+    rw [ih]
+    by_cases hc : r.coro = true
+    · simp [hc, evRes, List.count_cons]; omega
+    · simp [hc]
+
+theorem filter_toGuard (c : Cfg) (now : Nat) (rs : List Run) :
+    (rs.map (toGuard c now)).filter (·.coro) = [] := by
+  rw [List.filter_eq_nil_iff]
+  intro r hr
+  simp only [List.mem_map] at hr
+  obtain ⟨r0, _, rfl⟩ := hr
+  simp
+
+theorem putJobs_expire (c : Cfg) (s : State) (d : Nat) : putJobs (expire c s d).log = putJobs s.log := by
+  rw [expire_log_eq]
+  simp only [putJobs, List.filterMap_append]
+  rw [filterMap_expireNew evPut (fun _ => rfl) (fun _ => rfl) rfl]; rfl
+
+theorem expire_balanced (c : Cfg) (s : State) (d : Nat) (h : Balanced s) : Balanced (expire c s d) := by
+  intro x
+  have hx := h x
+  have hr := resJobs_expireEvents (max s.now d) s.runs ((max s.now d, Ev.timeout) :: s.log) x
+  rw [putJobs_expire, expire_log, hr]
+  simp only [pendJobs, expire_queue, expire_runs, expire_sdPending, filter_toGuard] at hx ⊢
+  simp [evRes, List.count_append] at hx ⊢
+  omega
+
 theorem run_balanced (c : Cfg) (ops : List Op) : Balanced (run c ops) := by
   have := run_induction c (fun s => Balanced s ∧ SdInv c s) ⟨by simp [Balanced, putJobs, resJobs, pendJobs], by simp [SdInv]⟩
     (fun s h => ⟨settle_balanced c s h.1, settle_sdInv c s h.2⟩)
     (fun s t h => ⟨fire_balanced c s t h.1, fire_sdInv c s t h.2⟩)
+    (fun s d h => ⟨expire_balanced c s d h.1, expire_sdInv c s d h.2⟩)
     (fun _ _ h => h)
     (fun s x h _ => ⟨accept_balanced s x h.1, by simpa [SdInv, accept] using h.2⟩)
     (fun s h => by
@@ -728,6 +922,7 @@ theorem run_uniq (c : Cfg) (ops : List Op) : UniqInv (run c ops) := by
   · simp [UniqInv, putJobs]
   · intro s h; have := settle_put c s; simpa [UniqInv, this.1, this.2] using h
   · intro s t h; have := fire_put c s t; simpa [UniqInv, this.1, this.2] using h
+  · intro s d h; simpa [UniqInv, putJobs_expire] using h
   · intro s t h; exact h
   · intro s x h _; exact uniq_add s _ x h (by simp [accept, evPut]) rfl
   · intro s h
@@ -790,6 +985,11 @@ theorem run_fifo (c : Cfg) (ops : List Op) : Fifo c (run c ops) := by
   · intro _; rfl
   · exact settle_fifo c
   · exact fire_fifo c
+  · intro s d h hm
+    have := h hm
+    rw [putJobs_expire, this, expire_log_eq]
+    simp only [startJobs, List.filterMap_append, expire_queue]
+    rw [filterMap_expireNew evStart (fun _ => rfl) (fun _ => rfl) rfl]; rfl
   · intro s t h; exact h
   · intro s x h _ hm; have := h hm; simp [accept, evPut, evStart, this]
   · intro s h hm
@@ -809,10 +1009,11 @@ def evCancel : Ev → Option Job
   | .cancelled j => some j
   | _ => none
 
-/-- every cancellation in the log is preceded (in time) by the arrival of a newer put -/
+/-- every cancellation in the log is preceded (in time) by the arrival of a newer put, or happens in
+    the instant in which stop_timeout expired -/
 def CancOK (log : List (Nat × Ev)) : Prop :=
   ∀ t e j, (t, e) ∈ log → evCancel e = some j →
-    ∃ k t', j.seq < k.seq ∧ t' ≤ t ∧ (t', Ev.put k) ∈ log
+    (∃ k t', j.seq < k.seq ∧ t' ≤ t ∧ (t', Ev.put k) ∈ log) ∨ (t, Ev.timeout) ∈ log
 
 theorem cancOK_cons {log : List (Nat × Ev)} {t : Nat} {e : Ev} (h : CancOK log)
     (hnew : ∀ j, evCancel e = some j → ∃ k t', j.seq < k.seq ∧ t' ≤ t ∧ (t', Ev.put k) ∈ log) :
@@ -821,10 +1022,21 @@ theorem cancOK_cons {log : List (Nat × Ev)} {t : Nat} {e : Ev} (h : CancOK log)
   cases hmem with
   | head =>
     obtain ⟨k, t', h1, h2, h3⟩ := hnew j hj
-    exact ⟨k, t', h1, h2, List.mem_cons_of_mem _ h3⟩
+    exact Or.inl ⟨k, t', h1, h2, List.mem_cons_of_mem _ h3⟩
   | tail _ hmem =>
-    obtain ⟨k, t', h1, h2, h3⟩ := h t1 e1 j hmem hj
-    exact ⟨k, t', h1, h2, List.mem_cons_of_mem _ h3⟩
+    rcases h t1 e1 j hmem hj with ⟨k, t', h1, h2, h3⟩ | hto
+    · exact Or.inl ⟨k, t', h1, h2, List.mem_cons_of_mem _ h3⟩
+    · exact Or.inr (List.mem_cons_of_mem _ hto)
+
+theorem cancOK_append {new log : List (Nat × Ev)} (h : CancOK log)
+    (hnew : ∀ x ∈ new, ∀ j, evCancel x.2 = some j → (x.1, Ev.timeout) ∈ new ++ log) :
+    CancOK (new ++ log) := by
+  intro t e j hmem hj
+  rcases List.mem_append.mp hmem with hm | hm
+  · exact Or.inr (hnew (t, e) hm j hj)
+  · rcases h t e j hm hj with ⟨k, t', h1, h2, h3⟩ | hto
+    · exact Or.inl ⟨k, t', h1, h2, List.mem_append_right _ h3⟩
+    · exact Or.inr (List.mem_append_right _ hto)
 
 theorem cancOK_cons_other {log : List (Nat × Ev)} {t : Nat} {e : Ev} (h : CancOK log)
     (he : evCancel e = none) : CancOK ((t, e) :: log) :=
@@ -1059,6 +1271,18 @@ theorem run_cancInv (c : Cfg) (ops : List Op) : CancInv (run c ops) := by
   · exact ⟨⟨by simp, by simp, by simp, by simp, by simp⟩, by simp, by intro t e j h; simp at h⟩
   · exact settle_cancInv c
   · exact fire_cancInv c
+  · intro s d ⟨hQ, hsd, hc⟩
+    refine ⟨?_, by simpa using hsd, ?_⟩
+    · refine qInv_mono (s := s) rfl ?_ (Nat.le_refl _) (by simp; omega) (expire_log_sub c s d) hQ
+      intro r' hr'
+      simp only [expire_runs, List.mem_map] at hr'
+      obtain ⟨r, hr, rfl⟩ := hr'
+      exact ⟨r, hr, by simp⟩
+    · rw [expire_log_eq]
+      apply cancOK_append hc
+      intro x hx j _
+      rcases expireNew_mem hx with rfl | ⟨r, _, _, rfl | rfl⟩ <;>
+      · apply List.mem_append_left; simp [expireNew]
   · intro s t ⟨hQ, hsd, hc⟩
     exact ⟨qInv_mono (s := s) rfl (fun r' hr' => ⟨r', hr', rfl⟩) (Nat.le_refl _) (Nat.le_max_left _ _)
       (fun e he => he) hQ, hsd, hc⟩
@@ -1274,11 +1498,42 @@ theorem gInv_put (c : Cfg) (s s' : State) (j : Job) (hlog : s'.log = (s.now, Ev.
     · exact Or.inl hm
   · rw [hlog]; exact sepOK_cons_other rfl (h.2 hm)
 
+theorem sepOK_append_other {g : Nat} {new l : List (Nat × Ev)} (h : SepOK g l)
+    (hnew : ∀ x ∈ new, evStart x.2 = none) : SepOK g (new ++ l) := by
+  induction new with
+  | nil => exact h
+  | cons x new ih =>
+    obtain ⟨t, e⟩ := x
+    exact sepOK_cons_other (hnew (t, e) (by simp)) (ih (fun y hy => hnew y (List.mem_cons_of_mem _ hy)))
+
+theorem expire_gInv (c : Cfg) (s : State) (d : Nat) (h : GInv c s) : GInv c (expire c s d) := by
+  refine ⟨g2_step (s := s) ?_ (by simp; omega) ?_ h.1, fun hm => ?_⟩
+  · intro t1 e hm ho
+    rw [expire_log_eq] at hm
+    rcases List.mem_append.mp hm with hm | hm
+    · rcases expireNew_mem hm with h0 | ⟨r, hr, hc, h1 | h1⟩
+      · cases h0; simp [evOver] at ho
+      · cases h1
+        right; right
+        refine ⟨toGuard c (max s.now d) r, by simp only [expire_runs]; exact List.mem_map_of_mem hr, by simp, ?_⟩
+        simp [toGuard, hc]
+      · cases h1; simp [evOver] at ho
+    · exact Or.inl hm
+  · intro r hr hc
+    left
+    simp only [expire_runs, List.mem_map]
+    exact ⟨r, hr, toGuard_of_guard _ _ _ hc⟩
+  · rw [expire_log_eq]
+    apply sepOK_append_other (h.2 hm)
+    intro x hx
+    rcases expireNew_mem hx with rfl | ⟨r, _, _, rfl | rfl⟩ <;> rfl
+
 theorem run_gInv (c : Cfg) (ops : List Op) : GInv c (run c ops) := by
   apply run_induction c (GInv c)
   · exact ⟨by intro t1 e hm; simp at hm, fun _ => trivial⟩
   · exact settle_gInv c
   · exact fire_gInv c
+  · exact expire_gInv c
   · intro s t h
     exact ⟨g2_step (s := s) (fun t1 e hm _ => Or.inl hm) (Nat.le_max_left _ _) (fun r hr _ => Or.inl hr) h.1, h.2⟩
   · intro s x h _; exact gInv_put c s _ ⟨s.nacc, x⟩ rfl rfl rfl h
@@ -1305,40 +1560,41 @@ theorem sepOK_split {g : Nat} {log l1 l2 : List (Nat × Ev)} {t2 : Nat} {k : Job
     exact ih h.2 rfl
 
 
-/-! ### wait and start mode never cancel -/
+/-! ### wait and start mode cancel nothing -- except in the instant in which stop_timeout expires -/
 
 def NoCancel (c : Cfg) (s : State) : Prop :=
-  c.mode ≠ Mode.cancel → ∀ t e, (t, e) ∈ s.log → evCancel e = none
+  c.mode ≠ Mode.cancel → ∀ t e, (t, e) ∈ s.log → evCancel e = none ∨ (t, Ev.timeout) ∈ s.log
 
 theorem noCancel_ext {c : Cfg} {s s' : State}
-    (hlog : ∀ t e, (t, e) ∈ s'.log → (t, e) ∈ s.log ∨ evCancel e = none) (h : NoCancel c s) : NoCancel c s' := by
+    (hlog : ∃ l, s'.log = l ++ s.log ∧ ∀ x ∈ l, evCancel x.2 = none ∨ (x.1, Ev.timeout) ∈ l)
+    (h : NoCancel c s) : NoCancel c s' := by
+  obtain ⟨l, hl, hnew⟩ := hlog
   intro hm t e hmem
-  rcases hlog t e hmem with h1 | h1
-  · exact h hm t e h1
-  · exact h1
+  rw [hl] at hmem ⊢
+  rcases List.mem_append.mp hmem with h1 | h1
+  · rcases hnew (t, e) h1 with h2 | h2
+    · exact Or.inl h2
+    · exact Or.inr (List.mem_append_left _ h2)
+  · rcases h hm t e h1 with h2 | h2
+    · exact Or.inl h2
+    · exact Or.inr (List.mem_append_right _ h2)
+
+theorem evCancel_result (r : Run) : evCancel (if r.job.data.fail then Ev.err r.job else Ev.succ r.job) = none := by
+  cases r.job.data.fail <;> rfl
+
+theorem startRun_noCancel (c : Cfg) (s : State) (j : Job) (h : NoCancel c s) : NoCancel c (startRun s j) :=
+  noCancel_ext ⟨[_, _], rfl, by simp [evCancel]⟩ h
 
 theorem startAll_noCancel (c : Cfg) (s : State) (q : List Job) (h : NoCancel c s) : NoCancel c (startAll s q) := by
   induction q generalizing s with
   | nil => exact h
-  | cons j q ih =>
-    apply ih
-    apply noCancel_ext _ h
-    intro t e hm; simp at hm
-    rcases hm with ⟨_, rfl⟩ | ⟨_, rfl⟩ | hm
-    · exact Or.inr rfl
-    · exact Or.inr rfl
-    · exact Or.inl hm
+  | cons j q ih => exact ih _ (startRun_noCancel c s j h)
 
 theorem settle_noCancel (c : Cfg) (s : State) (h : NoCancel c s) : NoCancel c (settle c s) := by
   apply settle_cases
   · exact h
   · intro _ j q _ _
-    apply noCancel_ext _ h
-    intro t e hm; simp at hm
-    rcases hm with ⟨_, rfl⟩ | ⟨_, rfl⟩ | hm
-    · exact Or.inr rfl
-    · exact Or.inr rfl
-    · exact Or.inl hm
+    exact startRun_noCancel c _ j (fun hm t e hmem => h hm t e hmem)
   · intro hm _ _ _ _ hne; exact absurd hm hne
   · intro hm _ _ _ _ _ _ _ hne; exact absurd hm hne
   · intro _
@@ -1346,60 +1602,47 @@ theorem settle_noCancel (c : Cfg) (s : State) (h : NoCancel c s) : NoCancel c (s
     unfold startStopData
     split
     · split
-      · apply noCancel_ext _ h1
-        intro t e hm; simp at hm
-        rcases hm with ⟨_, rfl⟩ | ⟨_, rfl⟩ | hm
-        · exact Or.inr rfl
-        · exact Or.inr rfl
-        · exact Or.inl hm
+      · exact startRun_noCancel c _ _ (fun hm t e hmem => h1 hm t e hmem)
       · exact h1
     · exact h1
-
-theorem evCancel_result (r : Run) : evCancel (if r.job.data.fail then Ev.err r.job else Ev.succ r.job) = none := by
-  cases r.job.data.fail <;> rfl
 
 theorem fire_noCancel (c : Cfg) (s : State) (t : Nat) (h : NoCancel c s) : NoCancel c (fire c s t) := by
   apply fire_cases
   · intro _; exact h
   · intro a r b _ _ _ _
-    apply noCancel_ext _ h
-    intro t e hm; simp [afterCoro] at hm
-    rcases hm with ⟨_, rfl⟩ | ⟨_, rfl⟩ | hm
-    · exact Or.inr (evCancel_result r)
-    · exact Or.inr rfl
-    · exact Or.inl hm
+    refine noCancel_ext (s := s) ⟨[_, _], rfl, ?_⟩ h
+    intro x hx
+    simp only [List.mem_cons, List.not_mem_nil, or_false] at hx
+    rcases hx with rfl | rfl
+    · exact Or.inl (evCancel_result r)
+    · exact Or.inl rfl
   · intro a r b _ _ _ _
     apply settle_noCancel
-    apply noCancel_ext _ h
-    intro t e hm; simp [afterCoro] at hm
-    rcases hm with ⟨_, rfl⟩ | ⟨_, rfl⟩ | ⟨_, rfl⟩ | hm
-    · exact Or.inr rfl
-    · exact Or.inr (evCancel_result r)
-    · exact Or.inr rfl
-    · exact Or.inl hm
+    refine noCancel_ext (s := s) ⟨[_, _, _], rfl, ?_⟩ h
+    intro x hx
+    simp only [List.mem_cons, List.not_mem_nil, or_false] at hx
+    rcases hx with rfl | rfl | rfl
+    · exact Or.inl rfl
+    · exact Or.inl (evCancel_result r)
+    · exact Or.inl rfl
   · intro a r b _ _ _
     apply settle_noCancel
-    apply noCancel_ext _ h
-    intro t e hm; simp at hm
-    rcases hm with ⟨_, rfl⟩ | hm
-    · exact Or.inr rfl
-    · exact Or.inl hm
+    exact noCancel_ext (s := s) ⟨[_], rfl, by simp [evCancel]⟩ h
 
-theorem noCancel_put (c : Cfg) (s s' : State) (j : Job) (hlog : s'.log = (s.now, Ev.put j) :: s.log)
-    (h : NoCancel c s) : NoCancel c s' := by
-  apply noCancel_ext _ h
-  intro t e hm; rw [hlog] at hm; simp at hm
-  rcases hm with ⟨_, rfl⟩ | hm
-  · exact Or.inr rfl
-  · exact Or.inl hm
+theorem expire_noCancel (c : Cfg) (s : State) (d : Nat) (h : NoCancel c s) : NoCancel c (expire c s d) := by
+  refine noCancel_ext (s := s) ⟨_, expire_log_eq c s d, ?_⟩ h
+  intro x hx
+  right
+  rcases expireNew_mem hx with rfl | ⟨r, _, _, rfl | rfl⟩ <;> simp [expireNew]
 
 theorem run_noCancel (c : Cfg) (ops : List Op) : NoCancel c (run c ops) := by
   apply run_induction c (NoCancel c)
   · intro _ t e hm; simp at hm
   · exact settle_noCancel c
   · exact fire_noCancel c
+  · exact expire_noCancel c
   · intro s t h; exact h
-  · intro s x h _; exact noCancel_put c s _ ⟨s.nacc, x⟩ rfl h
+  · intro s x h _; exact noCancel_ext (s := s) ⟨[_], rfl, by simp [evCancel]⟩ h
   · intro s h
     unfold doStop
     split
@@ -1408,15 +1651,15 @@ theorem run_noCancel (c : Cfg) (ops : List Op) : NoCancel c (run c ops) := by
       · exact fun hm t e hmem => h hm t e hmem
       · next d _ =>
         split
-        · exact noCancel_put c s _ ⟨s.nacc, d⟩ rfl h
-        · exact noCancel_put c s _ ⟨s.nacc, d⟩ rfl h
-
+        · exact noCancel_ext (s := s) ⟨[_], rfl, by simp [evCancel]⟩ h
+        · exact noCancel_ext (s := s) ⟨[_], rfl, by simp [evCancel]⟩ h
 
 /-! ### induction where timers fire and time passes only after the controller has run -/
 
 theorem run_induction_quiet (c : Cfg) (P : State → Prop) (h0 : P {})
     (hsettle : ∀ s, P s → P (settle c s))
     (hfire : ∀ s t, P s → Quiet c s → P (fire c s t))
+    (hexpire : ∀ s d, P s → Quiet c s → P (expire c s d))
     (hnow : ∀ s t, P s → Quiet c s → P { s with now := max s.now t })
     (haccept : ∀ s x, P s → s.stopped = false → P (accept s x))
     (hstop : ∀ s, P s → P (doStop c s)) :
@@ -1430,8 +1673,12 @@ theorem run_induction_quiet (c : Cfg) (P : State → Prop) (h0 : P {})
       simp only [advance]
       split
       · split
-        · exact ih _ (hfire _ _ h hq) (fire_quiet c s _ hq)
-        · exact h
+        · split
+          · exact ih _ (hexpire _ _ h hq) (expire_quiet c s _ hq)
+          · exact h
+        · split
+          · exact ih _ (hfire _ _ h hq) (fire_quiet c s _ hq)
+          · exact h
       · exact h
   have hadvTo : ∀ bound s, P s → P (advanceTo c bound s) := by
     intro bound s h
@@ -1564,6 +1811,16 @@ theorem run_startAt (c : Cfg) (ops : List Op) : StartAt c (run c ops) := by
   · intro _ t j hm; simp at hm
   · exact settle_startAt c
   · exact fire_startAt c
+  · intro s d h hq hm t' j hput
+    have hold : (t', Ev.put j) ∈ s.log := by
+      rw [expire_log_eq] at hput
+      rcases List.mem_append.mp hput with hx | hx
+      · rcases expireNew_mem hx with h0 | ⟨r, _, _, h0 | h0⟩ <;> cases h0
+      · exact hx
+    rcases h hm t' j hold with ⟨hjq, _⟩ | hs | ⟨h1, h2, h3⟩
+    · rw [(hq.2.2 hm).1] at hjq; cases hjq
+    · exact Or.inr (Or.inl (expire_log_sub c s d _ hs))
+    · exact Or.inr (Or.inr ⟨h1, h2, h3⟩)
   · intro s t h hq hm t' j hput
     rcases h hm t' j hput with ⟨hjq, _⟩ | hs | h3
     · have : s.queue = [] := (hq.2.2 hm).1
@@ -1608,6 +1865,7 @@ theorem run_startAt (c : Cfg) (ops : List Op) : StartAt c (run c ops) := by
 def evJob : Ev → Option Job
   | .put _ => none
   | .out _ => none
+  | .timeout => none
   | .start j => some j
   | .done j => some j
   | .cancelled j => some j
@@ -1821,6 +2079,22 @@ theorem run_sdLast (c : Cfg) (ops : List Op) : SdLast c (run c ops) := by
       rw [fire_stopped] at hst
       rw [(fire_put c s t).2]
       exact fire_sdL c _ s t h.1 (h.2 hst d hd)⟩)
+    (fun s d h => ⟨expire_sdInv c s d h.1, by
+      intro hst dd hd
+      have hst' : s.stopped = true := hst
+      rcases h.2 hst' dd hd with hw | hs
+      · exact Or.inl (sdWaiting_ext (s := s) rfl rfl hw)
+      · right
+        refine sdStarted_ext (s := s) rfl rfl ?_ ⟨_, expire_log_eq c s d, ?_⟩ hs
+        · intro r' hr'
+          simp only [expire_runs, List.mem_map] at hr'
+          obtain ⟨r, hr, rfl⟩ := hr'
+          exact ⟨r, hr, by simp⟩
+        · intro x hx
+          rcases expireNew_mem hx with rfl | ⟨r, hr, _, rfl | rfl⟩
+          · right; rfl
+          · left; simp [evJob, hs.2.2.1 r hr]
+          · left; simp [evJob, hs.2.2.1 r hr]⟩)
     (fun s t h => ⟨h.1, by
       intro hst d hd
       rcases h.2 hst d hd with hw | hs
